@@ -28,22 +28,32 @@ Definition build_http_header (k v : bytes) : bytes := k ++ [COLON] ++ [SP] ++ v.
 Definition render_headers (headers : dict bytes) : bytes :=
   flat_map (fun kv => build_http_header (fst kv) (snd kv) ++ CRLF) headers.
 
+(* utils.py _header_key: the spelling under which [name] is already present, else [name] *)
+Definition header_key (headers : dict bytes) (name : bytes) : bytes :=
+  match find (fun kv => bytes_eqb (lower (fst kv)) (lower name)) headers with
+  | Some kv => fst kv
+  | None => name
+  end.
+
 Definition build_http_pkt (line : list bytes) (headers : dict bytes) (body : option bytes)
            (conn_close : bool) : bytes :=
-  let headers := if conn_close then dict_set (bs "Connection") (bs "close") headers else headers in
+  let headers := if conn_close then dict_set (header_key headers (bs "Connection")) (bs "close") headers else headers in
   join [SP] line ++ CRLF ++ render_headers headers ++ CRLF ++ opt_bytes body.
 
 Definition has_key_ci (name : bytes) (headers : dict bytes) : bool :=
   existsb (fun kv => bytes_eqb (lower (fst kv)) name) headers.
 
+(* the Content-Length bookkeeping of build_http_request *)
+Definition fix_content_length (body : option bytes) (headers : dict bytes) : dict bytes :=
+  let has_te := has_key_ci (bs "transfer-encoding") headers in
+  if opt_truthy body && negb has_te
+  then dict_set (header_key headers (bs "Content-Length")) (dec_of_N (len (opt_bytes body))) headers
+  else headers.
+
 (* build_http_request(method, url, version, headers=..., body=..., no_ua=True) *)
 Definition build_http_request (method url version : bytes) (headers : dict bytes)
            (body : option bytes) : bytes :=
-  let has_te := has_key_ci (bs "transfer-encoding") headers in
-  let headers := if opt_truthy body && negb has_te
-                 then dict_set (bs "Content-Length") (dec_of_N (len (opt_bytes body))) headers
-                 else headers in
-  build_http_pkt [method; url; version] headers body false.
+  build_http_pkt [method; url; version] (fix_content_length body headers) body false.
 
 (* build_http_response(status, reason=..., headers=..., body=..., conn_close=...) *)
 Definition build_http_response (status : N) (version : bytes) (reason : option bytes)
@@ -51,7 +61,7 @@ Definition build_http_response (status : N) (version : bytes) (reason : option b
   let line := [version; dec_of_N status] ++ (if opt_truthy reason then [opt_bytes reason] else []) in
   let has_te := has_key_ci (bs "transfer-encoding") headers in
   let headers := if has_te then headers
-                 else dict_set (bs "Content-Length")
+                 else dict_set (header_key headers (bs "Content-Length"))
                         (if opt_truthy body then dec_of_N (len (opt_bytes body)) else bs "0") headers in
   build_http_pkt line headers body conn_close.
 
@@ -120,7 +130,8 @@ Record config := mkConfig {
 Inductive conn_outcome := ConnOk | ConnRefused | ConnErr (e : exn).
 
 (* TcpServerConnection as far as it is observable here *)
-Record upstream := mkUp { up_addr : bytes * N; up_buffer : list bytes; up_external : bool }.
+Record upstream := mkUp { up_addr : bytes * N; up_buffer : list bytes; up_external : bool;
+                           up_connected : bool }.   (* _conn is not None *)
 
 Record state := mkState {
   choice : option url;               (* ReverseProxy.choice *)
@@ -140,7 +151,11 @@ Definition with_upstream (st : state) (u : option upstream) : state :=
           (match upstream_ st with Some o => orphans st ++ [up_addr o] | None => orphans st end) (route_set st).
 Definition upstream_queue (st : state) (b : bytes) : state :=
   mkState (choice st)
-          (match upstream_ st with Some u => Some (mkUp (up_addr u) (up_buffer u ++ [b]) (up_external u)) | None => None end)
+          (match upstream_ st with Some u => Some (mkUp (up_addr u) (up_buffer u ++ [b]) (up_external u) (up_connected u)) | None => None end)
+          (client_queue st) (connect_log st) (wrap_log st) (orphans st) (route_set st).
+Definition mark_connected (st : state) : state :=
+  mkState (choice st)
+          (match upstream_ st with Some u => Some (mkUp (up_addr u) (up_buffer u) (up_external u) true) | None => None end)
           (client_queue st) (connect_log st) (wrap_log st) (orphans st) (route_set st).
 Definition client_queue_add (st : state) (b : bytes) : state :=
   mkState (choice st) (upstream_ st) (client_queue st ++ [b]) (connect_log st) (wrap_log st) (orphans st) (route_set st).
@@ -202,32 +217,34 @@ Section Routing.
     | Some p => do t <- text_ p; Ok (re_match pat t)
     end.
 
-  (* inner loop of handle_request: `for route in plugin.routes(): ... break` *)
+  (* what happens when a route's pattern matches, up to and including the `break` *)
+  Definition fire (r : route) (req : request) (rs : list nat) (st : state) (needs : bool)
+    : state * list nat * result bool :=
+    match r with
+    | Static _ urls =>
+        match random_choice urls (hd O rs) with
+        | Ok u => (with_choice st (Some u), tl rs, Ok true)
+        | Err e => (st, tl rs, Err e)
+        end
+    | Dynamic _ h =>
+        match h req with
+        | Err e => (st, rs, Err e)
+        | Ok (DUrl u) => (with_choice st (Some u), rs, Ok true)
+        | Ok (DBytes b) => (client_queue_add st b, rs, Ok needs)
+        | Ok (DConn a) => (with_upstream st (Some (mkUp a [] true true)), rs, Ok needs)
+        end
+    end.
+
+  (* inner loop of handle_request: `for route in plugin.routes(): if pattern.match(...): ...; break` *)
   Fixpoint routes_loop (rts : list route) (req : request) (rs : list nat) (st : state) (needs : bool)
     : state * list nat * result bool :=
     match rts with
     | [] => (st, rs, Ok needs)
-    | Static pat urls :: rest =>
-        match match_path pat req with
+    | r :: rest =>
+        match match_path (route_pat r) req with
         | Err e => (st, rs, Err e)
         | Ok false => routes_loop rest req rs st needs
-        | Ok true =>
-            match random_choice urls (hd O rs) with
-            | Ok u => (with_choice st (Some u), tl rs, Ok true)
-            | Err e => (st, tl rs, Err e)
-            end
-        end
-    | Dynamic pat h :: rest =>
-        match match_path pat req with
-        | Err e => (st, rs, Err e)
-        | Ok false => routes_loop rest req rs st needs
-        | Ok true =>
-            match h req with
-            | Err e => (st, rs, Err e)
-            | Ok (DUrl u) => (with_choice st (Some u), rs, Ok true)
-            | Ok (DBytes b) => (client_queue_add st b, rs, Ok needs)
-            | Ok (DConn a) => (with_upstream st (Some (mkUp a [] true)), rs, Ok needs)
-            end
+        | Ok true => fire r req rs st needs
         end
     end.
 
@@ -263,12 +280,13 @@ Section Routing.
         match text_ (opt_bytes (u_hostname u)) with
         | Err e => (st, Err e)
         | Ok h =>
-            let st1 := with_upstream st (Some (mkUp (h, port) [] false)) in   (* initialize_upstream *)
+            let st1 := with_upstream st (Some (mkUp (h, port) [] false false)) in   (* initialize_upstream *)
             let st2 := log_connect st1 (h, port) in                            (* upstream.connect() *)
             match co with
             | ConnRefused => (st2, Err (HttpProtocolException 1))
             | ConnErr e => (st2, Err e)
             | ConnOk =>
+                let st2 := mark_connected st2 in
                 let wrapped :=
                   if scheme_is u HTTPS_PROTO
                   then (log_wrap st2 h, wo)
@@ -369,9 +387,144 @@ Arguments before_routing {pattern} p.
 Arguments p_routes {pattern} p.
 Arguments routes {pattern} ps.
 Arguments match_path {pattern} re_match pat req.
+Arguments fire {pattern} r req rs st needs.
 Arguments routes_loop {pattern} re_match rts req rs st needs.
 Arguments plugins_loop {pattern} re_match ps req rs st needs.
 Arguments before_routing_all {pattern} ps req.
 Arguments handle_request {pattern} re_match cfg ps co wo req rs st.
 Arguments try_route {pattern} re_match cfg ps co wo req path rs st.
 Arguments on_request_complete {pattern} re_match cfg ps co wo req rs st.
+
+(* ================================================================== reference specification
+   What the upstream peer reads, independently of the builders above: an RFC 7230 section 3
+   reading of a request message (request-line, header fields with OWS around the value, empty
+   line, then the body bytes).  Cross-validated on every run by h11 on the bytes the fake
+   upstream socket received. *)
+Record message := mkMsg {
+  m_method : bytes; m_target : bytes; m_version : bytes;
+  m_headers : list (bytes * bytes); m_body : bytes }.
+
+Definition is_ows (x : N) : bool := (x =? 32) || (x =? 9).
+Fixpoint drop_ows (l : bytes) : bytes :=
+  match l with x :: t => if is_ows x then drop_ows t else l | [] => [] end.
+Definition strip_ows (l : bytes) : bytes := rev (drop_ows (rev (drop_ows l))).
+
+Definition ref_header (line : bytes) : option (bytes * bytes) :=
+  match split_once [COLON] line with
+  | Some (k, v) => Some (k, strip_ows v)
+  | None => None
+  end.
+
+Fixpoint ref_headers (fuel : nat) (raw : bytes) : option (list (bytes * bytes) * bytes) :=
+  match fuel with
+  | O => None
+  | S f =>
+      match split_once CRLF raw with
+      | None => None
+      | Some ([], rest) => Some ([], rest)
+      | Some (line, rest) =>
+          match ref_header line, ref_headers f rest with
+          | Some h, Some (hs, body) => Some (h :: hs, body)
+          | _, _ => None
+          end
+      end
+  end.
+
+Definition ref_parse (raw : bytes) : option message :=
+  match split_once CRLF raw with
+  | None => None
+  | Some (line, rest) =>
+      match split_once [SP] line with
+      | None => None
+      | Some (m, r1) =>
+          match split_once [SP] r1 with
+          | None => None
+          | Some (t, v) =>
+              match ref_headers (S (length rest)) rest with
+              | Some (hs, body) => Some (mkMsg m t v hs body)
+              | None => None
+              end
+          end
+      end
+  end.
+
+(* well-formedness of the parts of a message (what a parsed request satisfies) *)
+Definition no_byte (c : N) (l : bytes) : bool := forallb (fun x => negb (x =? c)) l.
+Definition no_crlf (l : bytes) : bool := no_byte 13 l && no_byte 10 l.
+Definition hd_not_ows (l : bytes) : bool := match l with [] => true | x :: _ => negb (is_ows x) end.
+Definition wf_token (l : bytes) : bool := truthy l && no_crlf l && no_byte SP l.      (* method, request-target *)
+Definition wf_version (l : bytes) : bool := truthy l && no_crlf l.
+Definition wf_name (l : bytes) : bool := no_crlf l && no_byte COLON l.
+Definition wf_value (l : bytes) : bool := no_crlf l && hd_not_ows l && hd_not_ows (rev l).
+Definition wf_header (kv : bytes * bytes) : bool := wf_name (fst kv) && wf_value (snd kv).
+
+Fixpoint nodup_keys (l : list bytes) : bool :=
+  match l with [] => true | x :: t => negb (existsb (bytes_eqb x) t) && nodup_keys t end.
+
+Definition h_orig (e : bytes * (bytes * bytes)) : bytes := fst (snd e).
+Definition h_value (e : bytes * (bytes * bytes)) : bytes := snd (snd e).
+
+Definition wf_request (r : request) : bool :=
+  wf_token (r_method r) && wf_version (r_version r)
+  && forallb (fun e => wf_header (h_orig e, h_value e)) (r_headers r)
+  && nodup_keys (map h_orig (r_headers r)).
+
+(* a configured upstream: non-empty UTF-8 host without blanks at its ends, path usable in a request line *)
+Definition wf_url (u : url) : bool :=
+  opt_truthy (u_hostname u) && utf8_valid (opt_bytes (u_hostname u)) && wf_value (opt_bytes (u_hostname u))
+  && wf_token (or_slash (u_remainder u)).
+
+(* the upstream authority: host[:port] exactly as configured *)
+Definition host_value (u : url) : bytes :=
+  opt_bytes (u_hostname u) ++ match u_port u with Some p => [COLON] ++ dec_of_N p | None => [] end.
+
+Definition rewrite_host (cfg : config) (u : url) (e : bytes * (bytes * bytes)) : bytes * bytes :=
+  (h_orig e,
+   if rewrite_host_header cfg && bytes_eqb (lower (h_orig e)) (bs "host") then host_value u else h_value e).
+
+(* the request the upstream must see for client request [req] routed to [u] *)
+Definition forwarded (cfg : config) (u : url) (req : request) : message :=
+  let body := get_body_or_chunks (chunk_size cfg) req in
+  mkMsg (r_method req) (or_slash (u_remainder u)) (r_version req)
+        (fix_content_length body (map (rewrite_host cfg u) (r_headers req)))
+        (opt_bytes body).
+
+(* ------------------------------------------------------------------ routing, specification side *)
+(* the first route of a plugin's table whose pattern matches the path *)
+Definition first_match {pattern} (re_match : pattern -> bytes -> bool) (p : bytes)
+           (rts : list (route pattern)) : option (route pattern) :=
+  find (fun r => re_match (route_pat r) p) rts.
+
+(* the routes that fire for a path: the first matching route of every plugin, in plugin order *)
+Definition fired {pattern} (re_match : pattern -> bytes -> bool) (p : bytes)
+           (ps : list (plugin pattern)) : list (route pattern) :=
+  flat_map (fun pl => match first_match re_match p (p_routes pl) with Some r => [r] | None => [] end) ps.
+
+Fixpoint fire_all {pattern} (frs : list (route pattern)) (req : request) (rs : list nat) (st : state)
+         (needs : bool) : state * list nat * result bool :=
+  match frs with
+  | [] => (st, rs, Ok needs)
+  | r :: rest =>
+      match fire r req rs st needs with
+      | (st', rs', Ok needs') => fire_all rest req rs' st' needs'
+      | other => other
+      end
+  end.
+
+(* route [r], on request [req] and raw random draw [d], designates upstream [u] *)
+Definition selects {pattern} (r : route pattern) (req : request) (d : nat) (u : url) : Prop :=
+  match r with
+  | Static _ urls => random_choice urls d = Ok u
+  | Dynamic _ h => h req = Ok (DUrl u)
+  end.
+
+(* [u] is one of the upstreams route [r] can designate for [req] *)
+Definition offers {pattern} (r : route pattern) (req : request) (u : url) : Prop :=
+  match r with
+  | Static _ urls => In u urls
+  | Dynamic _ h => h req = Ok (DUrl u)
+  end.
+
+(* draws left after route [r] fired *)
+Definition draws_after {pattern} (r : route pattern) (rs : list nat) : list nat :=
+  match r with Static _ _ => tl rs | Dynamic _ _ => rs end.
